@@ -5,17 +5,24 @@ import (
 	"crypto/elliptic"
 	"crypto/rand"
 	"crypto/sha256"
+	"crypto/x509"
+	"crypto/x509/pkix"
 	"encoding/hex"
 	"encoding/json"
 	"fmt"
 	"io"
+	"math"
+	"math/big"
 	"net/http"
 	"net/http/httptest"
 	"net/url"
 	"os"
 	"path/filepath"
+	"regexp"
 	"sort"
+	"strconv"
 	"strings"
+	"sync"
 	"sync/atomic"
 	"time"
 
@@ -70,11 +77,53 @@ func predict(method, uri string, headers map[string]string, body string) string 
 	return shortHash(canonical(method, uri, h, body))
 }
 
+// Lifetimes: an answer carries a lifetime (`exp` of an introspection response or of a session,
+// `expires_in` of a token endpoint response, `x5c` certificate of a JWK) iff the request asks for one
+// with the marker `life=<seconds>` (in the opaque token, in the session reference, in a scope, in the
+// path of the JWKS request). Absolute expiry times
+// are computed from the start time of the server, not from the time of the request, so the answer
+// stays a pure function of the request for the whole life of the process. What a mechanism derives
+// from such a lifetime (remaining lifetime minus some leeway) shrinks while the process runs; ttlLabel
+// maps everything in the window (lifetime - leeway - lifeWindow, lifetime] to one label. Configured
+// ttls of the catalogue must stay outside of these windows.
+const (
+	lifeShort  = 3700  // shorter than the long configured cache ttls (2h), longer than all others
+	lifeLong   = 90000 // longer than every configured cache ttl
+	lifeLeeway = 10    // the largest leeway a mechanism subtracts
+	lifeWindow = 1200  // longer than the watchdog of a child process
+)
+
+var lifeMarker = regexp.MustCompile(`(^|[^a-z])life=([0-9]+)($|[^0-9])`)
+
+// lifeOf returns the lifetime asked for by s (0: none).
+func lifeOf(s string) int64 {
+	m := lifeMarker.FindStringSubmatch(s)
+	if m == nil {
+		return 0
+	}
+	n, _ := strconv.ParseInt(m[2], 10, 64)
+	return n
+}
+
+// ttlLabel renders a ttl handed to the cache.
+func ttlLabel(ttl time.Duration) string {
+	for _, l := range []int64{lifeShort, lifeLong} {
+		if ttl > time.Duration(l-lifeLeeway-lifeWindow)*time.Second && ttl <= time.Duration(l)*time.Second {
+			return fmt.Sprintf("lifetime(%ds)-leeway", l)
+		}
+	}
+	return fmt.Sprintf("%ds", int64(math.Round(ttl.Seconds())))
+}
+
 type servers struct {
 	srv   *httptest.Server
 	URL   string
 	key   *ecdsa.PrivateKey
+	t0    time.Time // start of the server, whole seconds
 	calls atomic.Int64
+	// certificates for the signing key by lifetime (created once: the signature of a certificate is randomised)
+	certMu sync.Mutex
+	certs  map[int64]*x509.Certificate
 	// last canonical request per path prefix, for diagnostics only (never used by an oracle)
 	lastJWKS atomic.Value
 }
@@ -84,7 +133,7 @@ func newServers() (*servers, error) {
 	if err != nil {
 		return nil, err
 	}
-	s := &servers{key: key}
+	s := &servers{key: key, t0: time.Now().Truncate(time.Second)}
 	s.srv = httptest.NewServer(http.HandlerFunc(s.handle))
 	s.URL = s.srv.URL
 	return s, nil
@@ -117,17 +166,28 @@ func (s *servers) handle(w http.ResponseWriter, r *http.Request) {
 		})
 	case strings.HasPrefix(p, "/jwks"):
 		s.lastJWKS.Store(canon)
-		set := jose.JSONWebKeySet{Keys: []jose.JSONWebKey{{Key: &s.key.PublicKey, KeyID: "k-" + h, Algorithm: "ES256", Use: "sig"}}}
-		writeJSON(w, set)
+		jwk := jose.JSONWebKey{Key: &s.key.PublicKey, KeyID: "k-" + h, Algorithm: "ES256", Use: "sig"}
+		if l := lifeOf(p); l != 0 {
+			cert, err := s.certFor(l)
+			if err != nil {
+				http.Error(w, err.Error(), http.StatusInternalServerError)
+				return
+			}
+			jwk.Certificates = []*x509.Certificate{cert}
+		}
+		writeJSON(w, jose.JSONWebKeySet{Keys: []jose.JSONWebKey{jwk}})
 	case strings.HasPrefix(p, "/introspect"):
 		form, _ := url.ParseQuery(body)
 		parts := strings.Split(form.Get("token"), "~")
-		// token layout: <kind>~<issuer>~<audience>~<scopes separated by +>
-		if len(parts) != 4 || parts[0] != "tok" {
+		// token layout: <kind>~<issuer>~<audience>~<scopes separated by +>[~life=<seconds>]
+		if (len(parts) != 4 && len(parts) != 5) || parts[0] != "tok" || (len(parts) == 5 && lifeOf(parts[4]) == 0) {
 			writeJSON(w, map[string]any{"active": false})
 			return
 		}
 		resp := map[string]any{"active": true, "iss": parts[1], "sub": "u-" + h, "h": h}
+		if len(parts) == 5 {
+			resp["exp"] = s.t0.Unix() + lifeOf(parts[4])
+		}
 		if parts[2] != "" {
 			resp["aud"] = []string{parts[2]}
 		}
@@ -136,7 +196,11 @@ func (s *servers) handle(w http.ResponseWriter, r *http.Request) {
 		}
 		writeJSON(w, resp)
 	case strings.HasPrefix(p, "/identity"):
-		writeJSON(w, map[string]any{"sub": "id-" + h, "h": h, "role": "user"})
+		resp := map[string]any{"sub": "id-" + h, "h": h, "role": "user"}
+		if l := lifeOf(body); l != 0 {
+			resp["exp"] = s.t0.Unix() + l
+		}
+		writeJSON(w, resp)
 	case strings.HasPrefix(p, "/authz"), strings.HasPrefix(p, "/ctx"):
 		var echo any
 		if json.Unmarshal(raw, &echo) != nil {
@@ -146,10 +210,43 @@ func (s *servers) handle(w http.ResponseWriter, r *http.Request) {
 		w.Header().Set("X-Authz-B", "b-"+h)
 		writeJSON(w, map[string]any{"h": h, "echo": echo})
 	case strings.HasPrefix(p, "/token"):
-		writeJSON(w, map[string]any{"access_token": "at-" + h, "token_type": "Bearer"})
+		resp := map[string]any{"access_token": "at-" + h, "token_type": "Bearer"}
+		form, _ := url.ParseQuery(body)
+		if l := lifeOf(form.Get("scope")); l != 0 {
+			resp["expires_in"] = l
+		}
+		writeJSON(w, resp)
 	default:
 		http.NotFound(w, r)
 	}
+}
+
+// certFor returns the self-signed certificate of the signing key which expires life seconds after the
+// start of the server.
+func (s *servers) certFor(life int64) (*x509.Certificate, error) {
+	s.certMu.Lock()
+	defer s.certMu.Unlock()
+	if c := s.certs[life]; c != nil {
+		return c, nil
+	}
+	tpl := &x509.Certificate{
+		SerialNumber: big.NewInt(life), Subject: pkix.Name{CommonName: "verif jwks signer"},
+		NotBefore: s.t0.Add(-time.Hour), NotAfter: s.t0.Add(time.Duration(life) * time.Second),
+		KeyUsage: x509.KeyUsageDigitalSignature, BasicConstraintsValid: true,
+	}
+	der, err := x509.CreateCertificate(rand.Reader, tpl, tpl, &s.key.PublicKey, s.key)
+	if err != nil {
+		return nil, err
+	}
+	c, err := x509.ParseCertificate(der)
+	if err != nil {
+		return nil, err
+	}
+	if s.certs == nil {
+		s.certs = map[int64]*x509.Certificate{}
+	}
+	s.certs[life] = c
+	return c, nil
 }
 
 // signJWT issues an ES256 token with the given kid.
